@@ -329,6 +329,30 @@ def search(ctx):
             if p.length / d > 1500: continue
             fails += check_path(p, d)
             ev += 1; dist['path/' + fam] = dist.get('path/' + fam, 0) + 1
+    # stale state: flatten, edit a segment of the path in place through the API, flatten again; compare with a fresh path
+    import gen as _g
+    for _ in range(ctx.n(25, 300)):
+        fam, p = gen_path(rng)
+        segs = p.asSegments()
+        if not segs or p.length / 8 > 800: continue
+        d = rng.choice([8, 4.0, rng.uniform(2, 30)])
+        try: p.flatten(d)
+        except Exception: continue
+        i = rng.randrange(len(segs)); j = rng.randrange(len(segs[i].points))
+        segs[i][j] = P(segs[i][j].x + rng.choice([40.0, -25.5]), segs[i][j].y + rng.choice([30.0, -12.25]))
+        fresh = BezierPath.fromSegments([_g.fresh_copy(x) for x in segs]); fresh.closed = p.closed
+        a = [_g.canon(x) for x in p.flatten(d).asSegments()]; b = [_g.canon(x) for x in fresh.flatten(d).asSegments()]
+        ev += 1; dist['stale-state'] = dist.get('stale-state', 0) + 1
+        if a != b:
+            fails.append({'class': 'C17-stale-state', 'what': f'after flatten({d}); segs[{i}][{j}] = <new point>; flatten({d}) differs from flattening a fresh path with the same control points ({len(a)} vs {len(b)} edges)',
+                          'input': None, 'observed': a[:2], 'expected': b[:2]})
+    for _ in range(ctx.n(25, 300)):
+        fam, s = gen_curve(rng)
+        if len(s.points) < 3 or not (s.length == s.length) or s.length > 3000: continue
+        d = rng.choice([8, rng.uniform(1, 50)])
+        ff = _g.freshness(rng, s, {'flatten': lambda x: x.flatten(d)})
+        ev += 1
+        if ff: fails.append({'class': 'C17-stale-state', 'what': ff[0], 'input': None, 'observed': ff, 'expected': 'same as a fresh object'})
     return {'evaluations': ev, 'distinct_nontrivial': len(seen), 'failures': fails, 'distribution': dist, 'samples': samples, 'measured': measured}
 
 
